@@ -127,7 +127,7 @@ def strategy_history(ctx, rng, name, mgr_kind, default_mgr=False):
     key_cls = "CognitiveDualQueryStrategy" if cognitive else name
     # (1) query purity inside run A: snapshot after a query == snapshot after the preceding update
     for j in range(2, len(snaps_a), 2):
-        d = S.snap_diff(snaps_a[j - 1], snaps_a[j])
+        d = S.snap_diff(snaps_a[j - 1], snaps_a[j], lazy=True)
         if d:
             ctx.violate(f"C03/{key_cls}.query/state-changed",
                         f"{name}+{payload['manager']}: query changed attributes {d}", dict(payload, oracle="purity", at=j // 2))
@@ -143,7 +143,7 @@ def strategy_history(ctx, rng, name, mgr_kind, default_mgr=False):
                     dict(payload, oracle="extra"))
         return
     for j, (sa, sb) in enumerate(zip(snaps_a, snaps_b)):
-        d = S.snap_diff(sa, sb)
+        d = S.snap_diff(sa, sb, lazy=True)
         if d:
             ctx.violate(f"C03/{key_cls}.query/extra-queries-change-state",
                         f"{name}+{payload['manager']}: after original call #{j} the state differs in {d} when extra queries were made",
@@ -220,9 +220,9 @@ def replay(payload):
         make = lambda: S.make_strategy(r["strategy"], mk, r["budget"], r["seed"], ffb=r["ffb"], default_mgr=(mk is None))
         oa, sa, _, _ = S.run_history(make, ops)
         ob, sb, _, _ = S.run_history(make, ops, extra_at=extra)
-        bad = oa != ob or any(S.snap_diff(a, b) for a, b in zip(sa, sb))
+        bad = oa != ob or any(S.snap_diff(a, b, lazy=True) for a, b in zip(sa, sb))
         for j in range(2, len(sa), 2):
-            d = S.snap_diff(sa[j - 1], sa[j])
+            d = S.snap_diff(sa[j - 1], sa[j], lazy=True)
             if d:
                 print("query changed", d)
                 bad = True
